@@ -11,13 +11,13 @@ var props = map[string]propConf{
 	"C06": {Level: "fault_enumeration", Quick: 2000, Thorough: 500000, ThoroughS: 1500},
 	"C07": {Level: "exploration", Quick: 5000, Thorough: 2000000, ThoroughS: 1200},
 	"C08": {Level: "exploration", Quick: 4000, Thorough: 1000000, ThoroughS: 1500},
-	"C09": {Level: "exploration", Quick: 1000, Thorough: 300000, ThoroughS: 1500},
-	"C10": {Level: "exploration", Quick: 1000, Thorough: 300000, ThoroughS: 1500},
+	"C09": {Level: "exploration", Quick: 3000, Thorough: 300000, ThoroughS: 1500},
+	"C10": {Level: "exploration", Quick: 3000, Thorough: 300000, ThoroughS: 1500},
 	"C11": {Level: "exploration", Quick: 300, Thorough: 100000, ThoroughS: 1800, Race: true, Chunk: 50},
 	"C12": {Level: "exploration", Quick: 2000, Thorough: 500000, ThoroughS: 1200},
 	"C13": {Level: "exploration", Quick: 10000, Thorough: 5000000, ThoroughS: 1500},
 	"C14": {Level: "exploration", Quick: 3000, Thorough: 1000000, ThoroughS: 1200},
-	"C15": {Level: "exploration", Quick: 500, Thorough: 100000, ThoroughS: 1500},
-	"C19": {Level: "fault_enumeration", Quick: 800, Thorough: 200000, ThoroughS: 1500},
+	"C15": {Level: "exploration", Quick: 2000, Thorough: 100000, ThoroughS: 1500},
+	"C19": {Level: "fault_enumeration", Quick: 3000, Thorough: 200000, ThoroughS: 1500},
 	"C20": {Level: "exploration", Quick: 500, Thorough: 100000, ThoroughS: 1500},
 }
